@@ -49,6 +49,8 @@ const WATCHDOG: Duration = Duration::from_secs(6);
 /// ... and while shrinking a history whose route did not return
 const SHRINK_WATCHDOG: Duration = Duration::from_secs(3);
 /// pause point of the verif_hooks feature inside route_write (between assign_shard and get_node)
+/// timeout (seconds) of the NodeRegistry under test: Suspected after 15 s, Failed after 30 s
+const HC_TIMEOUT: u64 = 30;
 const PAUSE: &str = "cluster.route_write.after_assign";
 
 // ------------------------------------------------------------------ cases ----
@@ -62,6 +64,10 @@ enum Op {
     Dr { n: u32 },
     Ld { n: u32, load: u8 },
     Rm { n: u32 },
+    /// the node's last heartbeat is moved `age` seconds into the past (get_node + register_node)
+    Ag { n: u32, age: u32 },
+    /// one sweep of the real NodeRegistry::run_health_checks (registry timeout HC_TIMEOUT seconds)
+    Hc,
     Rb,
     Rt { s: u32 },
     /// route_write while "another task" mutates the registry at the pause point between the
@@ -141,6 +147,8 @@ fn op_text(o: &Op) -> String {
         Op::Dr { n } => format!("DR {}", n),
         Op::Ld { n, load } => format!("LD {} {}", n, load),
         Op::Rm { n } => format!("RM {}", n),
+        Op::Ag { n, age } => format!("AG {} {}", n, age),
+        Op::Hc => "HC".to_string(),
         Op::Rb => "RB".to_string(),
         Op::Rt { s } => format!("RT {}", s),
         Op::Rti { s, spec } => format!("RTI {} {}", s, spec_text(spec)),
@@ -183,6 +191,8 @@ fn parse_case(line: &str) -> Case {
             "DR" => c.ops.push(Op::Dr { n: p(1) }),
             "LD" => c.ops.push(Op::Ld { n: p(1), load: p(2) as u8 }),
             "RM" => c.ops.push(Op::Rm { n: p(1) }),
+            "AG" => c.ops.push(Op::Ag { n: p(1), age: p(2) }),
+            "HC" => c.ops.push(Op::Hc),
             "RB" => c.ops.push(Op::Rb),
             "RT" => c.ops.push(Op::Rt { s: p(1) }),
             "RTI" => c.ops.push(Op::Rti { s: p(1), spec: parse_spec(f.get(2).copied().unwrap_or("_")) }),
@@ -304,7 +314,7 @@ fn worker_history(rt: &tokio::runtime::Runtime, case: &Case) {
         let _ = writeln!(o, "{}", s);
         let _ = o.flush();
     };
-    let registry = Arc::new(NodeRegistry::new(30));
+    let registry = Arc::new(NodeRegistry::new(HC_TIMEOUT));
     let assignments = Arc::new(ShardAssignment::new(registry.clone(), strategy(case.strat)));
     let router = DistributedWriteRouter::new(assignments.clone(), registry.clone());
     let c = Cluster { registry, assignments, router };
@@ -357,6 +367,24 @@ fn worker_history(rt: &tokio::runtime::Runtime, case: &Case) {
                 }
                 Op::Rm { n } => {
                     c.registry.remove_node(&node_name(salt, *n)).await;
+                    "-".to_string()
+                }
+                Op::Ag { n, age } => {
+                    if let Some(mut info) = c.registry.get_node(&node_name(salt, *n)).await {
+                        if let Some(t) = std::time::Instant::now().checked_sub(Duration::from_secs(*age as u64)) {
+                            info.last_heartbeat = t;
+                            c.registry.register_node(info).await;
+                        }
+                    }
+                    "-".to_string()
+                }
+                Op::Hc => {
+                    // run_health_checks loops for ever on a 5 s tokio interval whose first tick is
+                    // immediate: with the tokio clock paused, a 10 ms timeout lets exactly one sweep
+                    // happen (the sweep itself compares std::time::Instant, i.e. real heartbeat ages)
+                    tokio::time::pause();
+                    let _ = tokio::time::timeout(Duration::from_millis(10), c.registry.run_health_checks()).await;
+                    tokio::time::resume();
                     "-".to_string()
                 }
                 Op::Rb => match c.assignments.rebalance().await {
@@ -625,8 +653,33 @@ fn model_line(case: &Case, run: &ImplRun, vnodes: usize) -> String {
     for s in &shards {
         v.push(format!("SH {} {}", s, hash_key(&shard_name(case.salt, *s))));
     }
+    let mut ages: BTreeMap<u32, u32> = BTreeMap::new(); // seconds since last heartbeat, as set by the history
     for (i, o) in case.ops[..n_exec].iter().enumerate() {
         match o {
+            Op::Reg { n, hb_age, .. } => {
+                ages.insert(*n, *hb_age);
+            }
+            Op::Ag { n, age } => {
+                if let Some(a) = ages.get_mut(n) {
+                    *a = *age
+                }
+            }
+            Op::Hb { n } => {
+                if let Some(a) = ages.get_mut(n) {
+                    *a = 0
+                }
+            }
+            Op::Rm { n } => {
+                ages.remove(n);
+            }
+            _ => {}
+        }
+        match o {
+            Op::Hc => v.push(format!(
+                "HC {} {}",
+                HC_TIMEOUT,
+                if ages.is_empty() { "-".to_string() } else { ages.iter().map(|(n, a)| format!("{}:{}", n, a)).collect::<Vec<_>>().join(",") }
+            )),
             Op::Rb => v.push(format!("RB {}", run.orders.get(i).map(|s| s.as_str()).unwrap_or("-"))),
             Op::Rt { s } => v.push(format!("RT {} {}", s, run.orders.get(i).map(|s| s.as_str()).unwrap_or("-"))),
             Op::Rti { s, spec } => v.push(format!("RTI {} {} {}", s, run.orders.get(i).map(|s| s.as_str()).unwrap_or("-"), spec_text(spec))),
@@ -642,6 +695,8 @@ struct Shadow {
     ty: u8,
     st: u8,
     load: u8,
+    /// seconds since the last heartbeat as set by the history (REG / AG / HB)
+    age: u32,
 }
 fn shadow_eligible(reg: &BTreeMap<u32, Shadow>, n: u32) -> bool {
     match reg.get(&n) {
@@ -686,8 +741,8 @@ fn oracle(case: &Case, run: &ImplRun) -> Vec<String> {
         let before = reg.clone();
         // shadow registry (semantics of NodeRegistry's public mutators)
         match op {
-            Op::Reg { n, ty, st, load, .. } => {
-                reg.insert(*n, Shadow { ty: *ty, st: *st, load: *load });
+            Op::Reg { n, ty, st, load, hb_age, .. } => {
+                reg.insert(*n, Shadow { ty: *ty, st: *st, load: *load, age: *hb_age });
             }
             Op::St { n, st } => {
                 if let Some(x) = reg.get_mut(n) {
@@ -695,9 +750,30 @@ fn oracle(case: &Case, run: &ImplRun) -> Vec<String> {
                 }
             }
             Op::Hb { n } => {
+                // a heartbeat revives a Suspected node only; Draining / Failed stay what they are
                 if let Some(x) = reg.get_mut(n) {
+                    x.age = 0;
                     if x.st == 1 {
                         x.st = 0
+                    }
+                }
+            }
+            Op::Ag { n, age } => {
+                if let Some(x) = reg.get_mut(n) {
+                    x.age = *age
+                }
+            }
+            Op::Hc => {
+                // contract of the sweep: Healthy -> Suspected after timeout/2, Healthy|Suspected -> Failed
+                // after timeout; a Draining or Failed node is never touched (so never revived later)
+                for x in reg.values_mut() {
+                    let a = x.age as u64;
+                    if a >= HC_TIMEOUT {
+                        if x.st == 0 || x.st == 1 {
+                            x.st = 2
+                        }
+                    } else if 2 * a >= HC_TIMEOUT && x.st == 0 {
+                        x.st = 1
                     }
                 }
             }
@@ -803,6 +879,9 @@ fn oracle(case: &Case, run: &ImplRun) -> Vec<String> {
 }
 
 // -------------------------------------------------------------- generator ----
+/// heartbeat ages (s) around the 15 s / 30 s marks, 3 s away from them (a history runs in milliseconds)
+const HB_AGES: [u32; 6] = [1, 12, 18, 27, 33, 3600];
+
 fn gen_load(rng: &mut Rng) -> u8 {
     match rng.below(10) {
         0 => 94,
@@ -833,7 +912,7 @@ fn gen_reg(rng: &mut Rng, n: u32, ty: u8, st: u8, load: u8, ns: u32) -> Op {
     };
     let shards: Vec<u32> = if rng.chance(1, 4) { (0..rng.range_usize(1, 4)).map(|_| rng.below(ns as u64 + 2) as u32).collect() } else { Vec::new() };
     let addr = if rng.chance(1, 3) { rng.below(200) as u8 } else { 0 };
-    let hb_age = if rng.chance(1, 5) { *rng.pick(&[1u32, 14, 16, 29, 31, 3600]) } else { 0 };
+    let hb_age = if rng.chance(1, 5) { *rng.pick(&HB_AGES) } else { 0 };
     Op::Reg { n, ty, st, load, cap, shards, addr, hb_age }
 }
 
@@ -898,8 +977,12 @@ fn gen_case(rng: &mut Rng, report: &mut Report) -> Case {
             Op::Rm { n }
         } else if r < 91 {
             Op::Rb
-        } else if r < 95 {
+        } else if r < 94 {
             Op::Hb { n }
+        } else if r < 96 {
+            Op::Ag { n, age: *rng.pick(&HB_AGES) }
+        } else if r < 98 {
+            Op::Hc
         } else {
             Op::Ob
         };
@@ -921,6 +1004,8 @@ fn gen_case(rng: &mut Rng, report: &mut Report) -> Case {
             Op::Dr { .. } => "op.drain",
             Op::Ld { .. } => "op.load",
             Op::Rm { .. } => "op.remove",
+            Op::Ag { .. } => "op.heartbeat_age",
+            Op::Hc => "op.health_check_sweep",
             Op::Rb => "op.rebalance",
             Op::Rt { .. } => "op.route",
             Op::Rti { .. } => "op.route_with_interference",
@@ -1051,6 +1136,18 @@ fn corpus() -> Vec<(String, Case)> {
             v.push((format!("interference.s{}", strat), Case { strat, salt: 6, ops }));
         }
     }
+    // the real health-check sweep: missed heartbeats of healthy / suspected / draining / failed nodes,
+    // a heartbeat afterwards, routing in between.  A drained or failed node must never come back.
+    for strat in 0..3u8 {
+        for age in [1u32, 12, 18, 27, 33, 3600] {
+            // the only node is drained, misses heartbeats, is swept, heartbeats again: still no target
+            let mut ops = vec![reg(0), Op::Rt { s: 0 }, Op::Dr { n: 0 }, Op::Ag { n: 0, age }, Op::Hc, Op::Rt { s: 0 }, Op::Hb { n: 0 }, Op::Rt { s: 0 }, Op::Hc, Op::Hb { n: 0 }, Op::Rt { s: 1 }, Op::Ob];
+            v.push((format!("health.drained.s{}", strat), Case { strat, salt: 9, ops: ops.clone() }));
+            // a healthy node: suspected after 15 s (revived by a heartbeat), failed after 30 s (not revived)
+            ops = vec![reg(0), reg(1), Op::Rt { s: 0 }, Op::Rt { s: 1 }, Op::Ag { n: 0, age }, Op::Hc, Op::Rt { s: 0 }, Op::Rt { s: 1 }, Op::Ob, Op::Hb { n: 0 }, Op::Rt { s: 0 }, Op::Rt { s: 2 }, Op::Ag { n: 1, age }, Op::St { n: 1, st: 2 }, Op::Hc, Op::Hb { n: 1 }, Op::Rt { s: 1 }, Op::Ob];
+            v.push((format!("health.healthy.s{}", strat), Case { strat, salt: 9, ops }));
+        }
+    }
     // minimised cases kept as files (one case per line, '#' comments)
     if let Ok(rd) = std::fs::read_dir("corpus/C19") {
         let mut files: Vec<_> = rd.filter_map(|e| e.ok()).map(|e| e.path()).collect();
@@ -1080,7 +1177,7 @@ fn nontrivial(c: &Case) -> bool {
         match o {
             Op::Reg { .. } => seen_reg = true,
             Op::Rt { .. } | Op::Rti { .. } if seen_reg && !routed => routed = true,
-            Op::St { .. } | Op::Dr { .. } | Op::Ld { .. } | Op::Rm { .. } | Op::Rb if routed => seen_change = true,
+            Op::St { .. } | Op::Dr { .. } | Op::Ld { .. } | Op::Rm { .. } | Op::Rb | Op::Hc if routed => seen_change = true,
             Op::Rt { .. } | Op::Rti { .. } if seen_change => return true,
             _ => {}
         }
